@@ -47,7 +47,15 @@ var scriptRegister = []expectedSend{
 func r1order(c *core.Ctx) {
 	const R = "R1.order"
 	c.Rule(R, "ManageNGSetup and RegisterUE send exactly the scripted messages in order on every path, answers after a receive, with the scripted NAS security envelope")
-	ng := driverModel(c, mustFunc(c, pStg, "ManageNGSetup"))
+	ngFn, regFn := mustFunc(c, pStg, "ManageNGSetup"), mustFunc(c, pStg, "RegisterUE")
+	if xn, xr := driverModelX(c, ngFn), driverModelX(c, regFn); xUsable(c, xn) && xUsable(c, xr) {
+		checkScriptX(c, R, xn, scriptNGSetup)
+		r1orderNGX(c, R, xn)
+		checkScriptX(c, R, xr, scriptRegister)
+		r1orderDeriveX(c, R, xr)
+		return
+	}
+	ng := driverModel(c, ngFn)
 	checkScript(c, R, ng, scriptNGSetup)
 	// the NG Setup response is read (and decoded) before the driver returns
 	okRecv := ng.ok && len(ng.paths) > 0
@@ -64,7 +72,7 @@ func r1order(c *core.Ctx) {
 		okRecv = okRecv && recvAfter
 	}
 	c.Check(okRecv, R, "ManageNGSetup:waits-for-response", ng.fn.Pos(), "a receive follows the NG Setup Request on every path", "ManageNGSetup must wait for the NG Setup Response before UEs are registered")
-	reg := driverModel(c, mustFunc(c, pStg, "RegisterUE"))
+	reg := driverModel(c, regFn)
 	checkScript(c, R, reg, scriptRegister)
 	// key derivation and AMF id assignment sit between the first receive and the second send
 	okDerive := reg.ok && len(reg.paths) > 0
@@ -110,6 +118,13 @@ func r1ids(c *core.Ctx) {
 	c.Rule(R, "identifier and parameter flow of RegisterUE: own ids in their roles, AMF id from IE 0 of the decoded DownlinkNASTransport, RAND/AUTN of that message into the derivation, RES* into the response, own SUCI and capabilities into the request")
 	fn := mustFunc(c, pStg, "RegisterUE")
 	m := driverModel(c, fn)
+	if x := driverModelX(c, fn); xUsable(c, x) {
+		checkIDsX(c, R, x)
+		r1idsX(c, R, x)
+		checkPositional(c, R, m)
+		r1idsNG(c, R)
+		return
+	}
 	checkIDs(c, R, m)
 	p := m.p
 	// the decoded first downlink message
@@ -154,17 +169,7 @@ func r1ids(c *core.Ctx) {
 		}
 	}
 	checkPositional(c, R, m)
-	// NG Setup: gNB id, bit length and name of the caller reach the wrapper unchanged
-	if ng := mustFunc(c, pStg, "ManageNGSetup"); ng != nil {
-		np := core.NewPather(ng)
-		gs := core.CallsTo(ng, pTglib+".GetNGSetupRequest")
-		okNG := len(gs) == 1
-		if okNG {
-			ga := gs[0].Common().Args
-			okNG = np.Path(ga[0]) == "p1" && np.Path(ga[2]) == "p4" && np.Path(ga[3]) == "p5"
-		}
-		c.Check(okNG, R, "ManageNGSetup:GetNGSetupRequest:args", ng.Pos(), "([]byte(gnbId), plmn, bitlength, name)", "ManageNGSetup must hand its gNB id, bit length and name to GetNGSetupRequest unchanged")
-	}
+	r1idsNG(c, R)
 	// key derivation arguments
 	ds := core.CallsTo(fn, pTglib+".RanUeContext.DeriveRESstarAndSetKey")
 	if len(ds) != 1 {
@@ -221,6 +226,30 @@ func r1ids(c *core.Ctx) {
 	}
 }
 
+// r1idsNG: gNB id, bit length and name of the caller reach the NG Setup wrapper unchanged.
+func r1idsNG(c *core.Ctx, R string) {
+	ng := mustFunc(c, pStg, "ManageNGSetup")
+	if x := driverModelX(c, ng); xUsable(c, x) {
+		okNG := true
+		for _, p := range x.paths {
+			ws := p.all("wrap")
+			if len(ws) != 1 || len(ws[0].Args) < 4 || nm(ws[0].Args[0]) != "p1" || nm(ws[0].Args[2]) != "p4" || nm(ws[0].Args[3]) != "p5" {
+				okNG = false
+			}
+		}
+		c.Check(okNG, R, "ManageNGSetup:GetNGSetupRequest:args", ng.Pos(), "([]byte(gnbId), plmn, bitlength, name)", "ManageNGSetup must hand its gNB id, bit length and name to GetNGSetupRequest unchanged")
+		return
+	}
+	np := core.NewPather(ng)
+	gs := core.CallsTo(ng, pTglib+".GetNGSetupRequest")
+	okNG := len(gs) == 1
+	if okNG {
+		ga := gs[0].Common().Args
+		okNG = np.Path(ga[0]) == "p1" && np.Path(ga[2]) == "p4" && np.Path(ga[3]) == "p5"
+	}
+	c.Check(okNG, R, "ManageNGSetup:GetNGSetupRequest:args", ng.Pos(), "([]byte(gnbId), plmn, bitlength, name)", "ManageNGSetup must hand its gNB id, bit length and name to GetNGSetupRequest unchanged")
+}
+
 func r1naspdu(c *core.Ctx) {
 	const R = "R1.naspdu"
 	c.Rule(R, "GetNasPdu finds the NAS-PDU IE by id and decodes it with the header type read from the message")
@@ -272,9 +301,13 @@ func r1snn(c *core.Ctx) {
 	const R = "R1.snn"
 	c.Rule(R, "serving network name = 5G:mnc<mnc padded to 3 digits>.mcc<mcc>.3gppnetwork.org")
 	fn := mustFunc(c, pStg, "RegisterUE")
+	if x := driverModelX(c, fn); xUsable(c, x) && r1snnX(c, R, x) {
+		return
+	}
 	p := core.NewPather(fn)
 	ds := core.CallsTo(fn, pTglib+".RanUeContext.DeriveRESstarAndSetKey")
 	if len(ds) != 1 {
+		c.SoftUndecided("RegisterUE: the serving network name handed to the key derivation could not be followed")
 		return
 	}
 	sn := ds[0].Common().Args[4]
